@@ -760,7 +760,7 @@ func c03(c *ctx) error {
 	if c.thorough() {
 		n = 3000
 	}
-	return c.isolated(n, 60*time.Second, func(i int) {
+	return c.isolated(n, 150*time.Second, func(i int) {
 		r := tr.NewRng(c.seed*1000003 + uint64(i)*15485863 + 31)
 		leaf := r.Pick(64, 64, 100, 4096)
 		st := memstore.New("blob")
@@ -988,11 +988,63 @@ func c03Download(c *ctx, r *tr.Rng, i int) {
 				}
 			}
 		}
-		for _, dstKind := range []string{"mem", "fs"} {
+		kinds := []string{"mem", "fs", "file"}
+		if i%20 == 0 && f == 0 {
+			// the destination's default retry policy (30 s of back-off) with one chunk writer per file
+			kinds = append(kinds, "fs-retry")
+		}
+		for _, dstKind := range kinds {
 			var got map[string][]byte
 			var derr error
+			treeSpec := strings.Join(spec, ";")
 			if dstKind == "mem" {
 				got, _, derr = corekit.Download(work.Stores, "r", id)
+			} else if dstKind == "file" {
+				// the single-file download (`bundle download file`): a damaged file when there is one
+				names := corekit.SortedNames(files)
+				name := names[r.Intn(len(names))]
+				for _, n := range names {
+					if damaged[n] {
+						name = n
+					}
+				}
+				dir := filepath.Join(os.Getenv("VERIF_WORK"), fmt.Sprintf("c03f-%d-%d-%d", c.seed, i, f))
+				_ = os.MkdirAll(dir, 0o755)
+				dst := localfs.New(afero.NewBasePathFs(afero.NewOsFs(), dir), localfs.WithRetry(false))
+				b := corekit.NewBundle(work.Stores, "r", dst, 0, id)
+				derr = corekit.Recover(func() error { return core.PublishFile(context.Background(), b, name) })
+				got = map[string][]byte{}
+				for n, v := range c04ReadDir(dir) {
+					if !strings.HasPrefix(n, ".datamon") {
+						got[n] = v
+					}
+				}
+				_ = os.RemoveAll(dir)
+				treeSpec = fmt.Sprintf("%s@gen:%d:%d", name, tree[name][0], tree[name][1])
+				c.w.Count("download=single-file")
+			} else if dstKind == "fs-retry" {
+				dir := filepath.Join(os.Getenv("VERIF_WORK"), fmt.Sprintf("c03r-%d-%d-%d", c.seed, i, f))
+				_ = os.MkdirAll(dir, 0o755)
+				dst := localfs.New(afero.NewBasePathFs(afero.NewOsFs(), dir))
+				b := corekit.NewBundle(work.Stores, "r", dst, 0, id, core.ConcurrentFileDownloads(r.Pick(3, 4, 5)))
+				derr = corekit.Recover(func() error { return core.Publish(context.Background(), b) })
+				time.Sleep(300 * time.Millisecond)
+				got = map[string][]byte{}
+				for n, v := range c04ReadDir(dir) {
+					if !strings.HasPrefix(n, ".datamon") {
+						got[n] = v
+					}
+				}
+				if derr != nil {
+					// after an error only damaged files are judged (healthy ones may have been cut short)
+					for n := range got {
+						if !damaged[n] && string(got[n]) != string(files[n]) {
+							delete(got, n)
+						}
+					}
+				}
+				_ = os.RemoveAll(dir)
+				c.w.Count("download=retrying-destination")
 			} else {
 				dir := filepath.Join(os.Getenv("VERIF_WORK"), fmt.Sprintf("c03-%d-%d-%d", c.seed, i, f))
 				_ = os.MkdirAll(dir, 0o755)
@@ -1036,7 +1088,7 @@ func c03Download(c *ctx, r *tr.Rng, i int) {
 			for _, n := range corekit.SortedNames(got) {
 				dest = append(dest, n+"@"+cafsH256(got[n]))
 			}
-			c.w.Op(fmt.Sprintf("dlobs dst=%s fault=%s tree=%s st=%s dest=%s", dstKind, desc, strings.Join(spec, ";"), st, strings.Join(dest, ";")), "sound")
+			c.w.Op(fmt.Sprintf("dlobs dst=%s fault=%s tree=%s st=%s dest=%s", dstKind, desc, treeSpec, st, strings.Join(dest, ";")), "sound")
 		}
 	}
 	c.w.End()
